@@ -2050,6 +2050,11 @@ BitArrayT<NCapacity>::Bits::operator bool() const noexcept {
 			return true;
 
 	const Short bit = _width % 8;
+
+	// a view ending on a unit boundary must not look at the unit past its end
+	if (bit == 0)
+		return false;
+
 	const uint8_t mask = (1 << bit) - 1;
 	const uint8_t& unit = _storage[fullUnits];
 
@@ -2160,6 +2165,11 @@ BitArrayT<NCapacity>::CBits::operator bool() const noexcept {
 			return true;
 
 	const Short bit = _width % 8;
+
+	// a view ending on a unit boundary must not look at the unit past its end
+	if (bit == 0)
+		return false;
+
 	const uint8_t mask = (1 << bit) - 1;
 	const uint8_t& unit = _storage[fullUnits];
 
